@@ -73,6 +73,12 @@ pub fn fkey(url: &str) -> String {
 }
 
 fn apply_odd(spelled: &str, odd: u8) -> String {
+    // a scheme in front stays in front
+    if let Some(rest) = spelled.strip_prefix("file:") {
+        if !rest.starts_with('/') {
+            return format!("file:{}", apply_odd(rest, odd));
+        }
+    }
     let (body, blank) = match spelled.strip_suffix(' ') {
         Some(b) => (b, " "),
         None => (spelled, ""),
@@ -193,6 +199,9 @@ pub fn spell(from: &str, target: &str, variant: u8) -> String {
         9 => format!("/w/{target}"),
         10 => format!("/w/zz/../{target}"),
         11 => format!("/w/{}/../{target}", fd.first().copied().unwrap_or("nowhere")),
+        // a relative reference may carry its scheme
+        12 => format!("file:{rel}"),
+        13 => format!("file:./{rel}"),
         4 => rel.replace(' ', "%20"),
         5 => format!("{} ", rel.replace(' ', "%20")),
         // file URLs take a backslash for a slash: the separator between a directory *name*
@@ -721,7 +730,7 @@ pub fn gen_scenario(rng: &mut Rng) -> Scenario {
     let add = |modules: &mut Vec<ModuleSpec>, rng: &mut Rng, a: usize, b: usize| {
         modules[a].imports.push(Import {
             target: Target::Module(b),
-            spelling: rng.below(12) as u8,
+            spelling: rng.below(14) as u8,
             qualified: rng.chance(3, 4),
         });
     };
@@ -803,7 +812,7 @@ pub fn gen_scenario(rng: &mut Rng) -> Scenario {
         let a = rng.below(n);
         if let Some(imp) = modules[a].imports.first().cloned() {
             let mut d = imp;
-            d.spelling = rng.below(12) as u8;
+            d.spelling = rng.below(14) as u8;
             d.qualified = rng.chance(1, 2);
             modules[a].imports.push(d);
         }
@@ -811,7 +820,7 @@ pub fn gen_scenario(rng: &mut Rng) -> Scenario {
     // missing targets
     if rng.chance(1, 5) {
         let a = rng.below(n);
-        let sp = rng.below(12) as u8;
+        let sp = rng.below(14) as u8;
         modules[a].imports.push(Import {
             target: Target::Missing(format!("x{}.oal", rng.below(3))),
             spelling: sp,
@@ -844,7 +853,7 @@ pub fn variant(scn: &Scenario, rng: &mut Rng) -> Scenario {
     for m in v.modules.iter_mut() {
         rng.shuffle(&mut m.imports);
         for imp in m.imports.iter_mut() {
-            imp.spelling = rng.below(12) as u8;
+            imp.spelling = rng.below(14) as u8;
         }
     }
     v
@@ -908,6 +917,35 @@ pub fn run_scenario(scn: &Scenario) -> (Option<(bool, Violation)>, Vec<Outcome>)
         }
     }
     (None, outs)
+}
+
+/// A chain of `n` modules, each importing the next, loaded on a thread with the stack a Rust
+/// thread gets by default (2 MiB): the loader must come back with all of them. (A loader that
+/// recurses once per module does not come back at all: the process dies, which the driver
+/// reports.)
+pub fn deep_chain(n: usize) -> Option<Violation> {
+    let modules: Vec<ModuleSpec> = (0..n)
+        .map(|i| ModuleSpec {
+            path: format!("m{i}.oal"),
+            imports: if i + 1 < n { vec![Import { target: Target::Module(i + 1), spelling: 0, qualified: true }] } else { vec![] },
+            odd: 0,
+            clash: false,
+        })
+        .collect();
+    let scn = Scenario { modules, faults: vec![] };
+    let h = std::thread::Builder::new().stack_size(2 << 20).spawn(move || {
+        let o = execute(&scn, false);
+        match o.verdict {
+            Verdict::Ok(set) if set.len() == n => None,
+            Verdict::Ok(set) => Some(format!("Ok with {} of {n} modules", set.len())),
+            v => Some(format!("{:?}", v).chars().take(200).collect()),
+        }
+    });
+    match h.expect("spawn").join() {
+        Ok(None) => None,
+        Ok(Some(d)) => viol("deep-chain", d),
+        Err(_) => viol("deep-chain", "the loading thread panicked".into()),
+    }
 }
 
 pub fn run(seed: u64, run: u64) -> Report {
@@ -1044,7 +1082,19 @@ pub fn run(seed: u64, run: u64) -> Report {
         "fault_plan": with_faults[0].faults,
         "fault_free_verdict": format!("{:?}", verdict0),
     });
-    let violation = violation.map(|(s, faulty, v)| found(&s, faulty, &v));
+    let mut violation = violation.map(|(s, faulty, v)| found(&s, faulty, &v));
+    if violation.is_none() && run >= sweep && (run - sweep) % 100_000 == 0 {
+        // once per hundred thousand runs: a very deep acyclic chain
+        probes.push("chain_of_40000_modules_on_a_2_mib_stack");
+        if let Some(v) = deep_chain(40_000) {
+            violation = Some(Found {
+                signature: format!("C10 {}", v.oracle),
+                oracle: v.oracle.clone(),
+                detail: v.detail.clone(),
+                scenario: serde_json::json!({ "deep_chain": 40_000 }),
+            });
+        }
+    }
     Report {
         violation,
         digest: digest64(log.as_bytes()),
@@ -1081,6 +1131,14 @@ fn found(s: &Scenario, faulty: bool, v: &Violation) -> Found {
 
 /// Replays a recorded scenario; returns the violation it reproduces, if any.
 pub fn replay(doc: &serde_json::Value) -> Result<Option<Found>, String> {
+    if let Some(n) = doc["deep_chain"].as_u64() {
+        return Ok(deep_chain(n as usize).map(|v| Found {
+            signature: format!("C10 {}", v.oracle),
+            oracle: v.oracle,
+            detail: v.detail,
+            scenario: doc.clone(),
+        }));
+    }
     let scn: Scenario = serde_json::from_value(doc["scenario"].clone()).map_err(|e| e.to_string())?;
     Ok(run_scenario(&scn).0.map(|(faulty, v)| Found {
         signature: format!("C10 {}{}", v.oracle, if faulty { " under-faults" } else { "" }),
